@@ -571,6 +571,8 @@ def run(ctx):
 
     # correspondence with the Lean bookkeeping model (driver command), see props/corr_models.py
     check.pmap(ctx, 'props.corr_models', 'one_validate', list(range(16 if q else 160)), case_timeout=300)
+    # ... and of the call layer of moment / accumulate (PGModel/Api.lean, driver command `api`): reward-tuple length, order 0, times
+    check.pmap(ctx, 'props.corr_models', 'one_api', list(range(100, 116 if q else 220)), case_timeout=300)
 
 
 def replay(ctx, payload):
